@@ -785,7 +785,7 @@ Proof.
   2:{ rewrite ray3d_core_outside in Hc by exact Hh. injection Hc as _ <-. lia. }
   destruct (hull3_R Hh) as (Hz & Hx & Hy).
   destruct (Z.eq_dec k 0) as [->|Hk0].
-  { unfold row_in3. cbn [nofZ NumR] in E0, E1, E2. rewrite E0, E1, E2. repeat split; assumption. }
+  { unfold row_in3. cbn [nofZ NumR] in E0, E1, E2. rewrite E0, E1, E2. split; [|split]; assumption. }
   destruct (ray3d_core_char z x y zgrad xgrad ygrad zend xend yend zsrc xsrc ysrc stepsize max_step hg Hh)
     as (cond & body & s0 & Heq & (Hc0 & _ & _ & Hr0 & Hi0 & Hcell0) & Hstep).
   rewrite Heq in Hc. destruct (while_fuel fuel cond body s0) as [s1| |] eqn:Ew; simpl in Hc; try discriminate.
